@@ -105,7 +105,7 @@ pub fn scenario(g: &mut G, ctx: &RunCtx) -> RunReport {
         // keep the form's own type and boundary off the wire
         headers: if g.chance(1, 5) {
             g.probe("content-type-set-before-the-form");
-            vec![("Content-Type".to_string(), (*g.pick(&["application/json", "multipart/form-data; boundary=stale", "text/plain"])).as_bytes().to_vec(), false)]
+            vec![("Content-Type".to_string(), (*g.pick(&["application/json", "multipart/form-data; boundary=stale", "text/plain", "multipart/form-data; Boundary=stale", "Multipart/Form-Data; BOUNDARY=\"stale\"", "multipart/mixed; charset=x; boundary=stale", "multipart/related;boundary=stale;type=\"text/xml\""])).as_bytes().to_vec(), false)]
         } else {
             vec![]
         },
